@@ -1,7 +1,7 @@
 \* EXPECTED VIOLATION Converges (to A): a fork peer at the head
 CONSTANTS HA = 2 HB = 2 ForkAt = 1 Start = 0 MaxIter = 0 WithCancel = FALSE
   Peers = {"honest", "fork"}
-  Verify = TRUE Retry = TRUE CheckedStore = TRUE CtxAwareSends = TRUE
+  Verify = TRUE Retry = TRUE CheckedStore = TRUE CtxAwareSends = TRUE FieldsChecked = TRUE
   ClassOf <- MCIdentity EmptyA <- MCEmptyMix EmptyB <- MCEmptyB
 SPECIFICATION LiveSpec
 VIEW view
